@@ -1194,7 +1194,9 @@ func (d *Data) GetFieldCounts(ctx storage.VersionedCtx) (map[string]int64, error
 		mdb.mu.RLock()
 		fields := make(map[string]int64, len(mdb.fields))
 		for field, count := range mdb.fields {
-			fields[field] = count
+			if count > 0 { // counters of fields no longer present stay in the map at zero
+				fields[field] = count
+			}
 		}
 		mdb.mu.RUnlock()
 		return fields, nil
